@@ -27,7 +27,7 @@ ASSUMPTIONS = ['the documentation tables of the tree under test are the specific
                'propagate_fft refusing tilt-carrying wavefronts (NotImplementedError) is C09\'s rule, not a table entry']
 EXHAUSTIVE = True
 PLAN = {'quick': {'gen': 8}, 'thorough': {'gen': 16, 'tests': 1}}
-REQUIRED_BUCKETS = ['other-process', 'form:shared-plane-object', 'form:scalar+sampling', 'form:other-focal', 'form:no-focal', 'form:reassigned', 'typed-tilt-class', 'start:none+focal', 'form:mismatch', 'copy-step', 'form:scalar', 'form:disjoint', 'start:none', 'start:pupil', 'start:image', 'len:1', 'len:2', 'len:3', 'random-long',
+REQUIRED_BUCKETS = ['propagate:field-less', 'other-process', 'form:shared-plane-object', 'form:scalar+sampling', 'form:other-focal', 'form:no-focal', 'form:reassigned', 'typed-tilt-class', 'start:none+focal', 'form:mismatch', 'copy-step', 'form:scalar', 'form:disjoint', 'start:none', 'start:pupil', 'start:image', 'len:1', 'len:2', 'len:3', 'random-long',
                     'cell:allowed', 'cell:refused', 'propagate:allowed', 'propagate:refused']
 REQUIRED_ANCHORS = ['anchor:_can_mul_ptype', 'anchor:_mul_result_ptype', 'anchor:_propagate_ptype', 'anchor:Image.multiply',
                     'anchor:PType.__eq__']
@@ -208,10 +208,12 @@ def run_program(ctx, lentil, start, prog, traces, forms=None):
                     if before != 'none':
                         trace.append((before, sym, 'skip:no-sampling', None))
                         break
-                if before != 'none' and not any(np.ndim(f.data) == 2 for f in w.data):
+                if before != 'none' and w.data and not any(np.ndim(f.data) == 2 for f in w.data):
                     # a wavefront without any extent (constant fields only) has no samples to transform: outside the table
                     trace.append((before, sym, 'skip:no-extent', None))
                     break
+                if before != 'none' and not w.data:
+                    ctx.bucket('propagate:field-less')        # (two disjoint apertures emptied the wavefront: still a pupil / an image)
                 if sym == 'propagate_dft':
                     out = lentil.propagate_dft(w, DU, shape=4, oversample=1)
                 else:
